@@ -71,7 +71,9 @@ CLAIMED = {
          "through the keys the degeneracy maps are built from (unique_tables_eq; the keyed form holds for influence_matrix's "
          "formula, inflEntry_keyed), hence TEMPO's state with reduced tables equals the state with full tables "
          "(unique_eq_full). Tie: real degeneracy maps vs rowDegeneracy (exact), reduced real tables vs full tables at "
-         "representatives (exact), real Tempo(unique) vs the reduced-table model, PT-TEMPO(unique) through C02."),
+         "representatives (exact), real Tempo(unique) and PtTempo(unique)+compute_dynamics vs the reduced-table model; the "
+         "vectors closing the (reduced) legs in Tempo, MeanFieldTempo and PtTempo are regenerated from the source and shown to be "
+         "all ones, which closes a reduced leg to the plain Liouville sum (closing_vectors, reduced_legs_close_to_plain_sum)."),
    ref="§4 C06",
    note=TB + "keys compared exactly (code rounds to 12 decimals); mean-field TEMPO shares the backend step, no separate theorem."),
  "C14": dict(
@@ -113,7 +115,7 @@ CLAIMED = {
    technique="Lean 4 proof on an executable model of the time bookkeeping + source translator (CorrTimes) + exhaustive differential correspondence with tagged values",
    text="For every number of operators and every list of time specifications, the Lean theorem `aligned` shows that an entry of the array returned by compute_correlations_nt is NaN exactly when the steps at its indices are not time ordered and otherwise is the value computed for exactly those steps; `axes_grid` shows the returned axes are start+dt*step of the parsed steps, `parse_interval`/`parse_list`/`parse_in_range` cover intervals in either direction and lists in any order, `anti_index`/`anti_conj` cover the anti ordering, `dt_governs` that the dt labelling the axes is the dt of the propagators. The arithmetic of _parse_times, the mask/index write-back shape, the order test and the dt keyword plumbing are regenerated from the source on every run, so the proofs break when the code changes (they did on the four repaired defects). The control flow of the model is compared with the real code on every int/slice/short list/float/interval spec over grids N<=4 (quick) / N<=6 (thorough) and on every pair of distinct parsed step lists (N<=3 / N<=5), ordered and anti, plus sampled 3-4 operator calls, with bit-exact axes and per-entry step tuples; unmodified runs with a time-dependent system confirm the value tagging.",
    ref="§4 C07",
-   note=TB + "tagged stand-in for _compute_ordered_nt_correlations (cross-checked by unwrapped runs); binary64 model without overflow/NaN, dt != 0; numpy/CPython indexing semantics checked by enumeration only; values abstract (contraction correctness is C03/C18), Hermiticity preservation assumed in anti_conj (C04); NOT shown: bath_dynamics kernels / displaced-oscillator closed form."),
+   note=TB + "tagged stand-in for _compute_ordered_nt_correlations (cross-checked by unwrapped runs); binary64 model without overflow/NaN, dt != 0; numpy/CPython indexing semantics checked by enumeration only; values abstract (contraction correctness is C03/C18), Hermiticity preservation assumed in anti_conj (C04). bath_dynamics: the operand order of the rebuilt coupling operator, the compute_correlations feed, the slices and every kernel cell are regenerated (CorrBath) and proved (coup_op_rebuilt, sys_corr_feeds, kernel_cell_exact, kernel_diag_exact; the degenerate diagonal cell only for the symmetric sum the real kernel uses: kernel_diag_degenerate_partial); NOT shown: that the assembled kernels give the displaced-oscillator closed form (tested in search only)."),
  "C08": dict(
    technique="Lean 4 proof (exact multilinearity / adjointness by induction, dual numbers) + translator (GradWiring) + exact-rational tensor correspondence",
    text="The objective of state_gradient is modelled as target x prod(steps) x rho0 over an arbitrary commutative ring. For every number of steps, bond dimension and number of environments it is proved that replacing any half-step propagator P_k by P_k+Delta changes Z by exactly the contraction of the adjoint tensor (forward tensor x MPO x specification backward tensor) with Delta. Over the dual numbers K[eps] the eps-coefficient of Z equals the value _chain_rule computes. For one and two environments the tensors the code builds (axis numbers, leg swaps, environment order of the backward pass, edge bookkeeping, chain-rule wiring - all regenerated from the source on every run) are proved equal to the specification ones. The theorem for two non-commuting environments needs the backward pass to visit the environments in reversed order, which exposed and now guards the order defect. The reported dynamics are proved equal to compute_dynamics' contraction. Every run also compares the real state_gradient's states, stored forward/backward/adjoint tensors and final gradient with the model on random hand-built process tensors to 1e-9.",
@@ -145,7 +147,11 @@ CLAIMED = {
          "theorems (labels = start+k*dt for every API and k, final-only label, one step-count rule for "
          "Tempo/MeanFieldTempo/PtTempo, exhaustive kernel-checked decimal lattice m<=1000, unbounded "
          "grid theorem for any rounding with relative error <= u, Dynamics.add keeps times sorted/aligned "
-         "for every add-history, compute-history reaches exactly the grid 0..n) are re-checked against them; "
+         "for every add-history, compute-history reaches exactly the grid 0..n for Tempo/MeanFieldTempo and - with the "
+         "regenerated count of compute_step() calls of PtTebd.compute - for PtTebd for any split of compute(end_step) calls "
+         "and any start step; an explicitly given num_steps (zero included) is the number of steps taken by "
+         "compute_dynamics/_with_field/compute_gradient_and_dynamics, None means the shortest finite process tensor, too long is "
+         "refused) are re-checked against them; "
          "the generated functions and the history model are run against the real code bit-exactly."),
    ref="§4 C13",
    note=TB + "exact binary64 model on rationals without overflow/subnormals/NaN; CPython bisect contract; "
